@@ -927,7 +927,11 @@ impl MdGen<'_> {
 
     fn paralike(&mut self) -> Block {
         let k = self.next();
-        let (class, text) = match self.rng.below(8) {
+        let (class, text) = match self.rng.below(11) {
+            // inline code at the start of a line is not a fence, however many backticks it uses
+            8 => ("bt3", format!("```inline{k}``` code starts this line")),
+            9 => ("bt3", format!("````x{k}```` four ticks")),
+            10 => ("bt3", format!("```sh{k}` odd ticks")),
             0 => ("bt1", format!("`code{k}` starts this line")),
             1 => ("bt2", format!("``inline{k}`` text")),
             2 => ("bt2", format!("`` `tick` {k} `` is how a backtick is written")),
@@ -1013,7 +1017,10 @@ impl MdGen<'_> {
                 mk(format!("out {k}"), "plain", eq)
             };
         }
-        match rng.below(46) {
+        match rng.below(48) {
+            // a bracketed number followed by blanks is text, not an exit code
+            46 => mk(format!("[{}] ", k % 3), "bracket-ws", eq),
+            47 => mk("[7]\t".into(), "bracket-ws", eq),
             // a carriage return that is not part of the line ending is text of the line
             40 => mk(format!("loading 10%\rloading 100% {k}"), "cr-inside", eq),
             41 if crlf => mk(format!("done {k}\r"), "cr-end", eq),
@@ -1120,6 +1127,11 @@ impl MdGen<'_> {
             if s.comments.is_empty() {
                 s.comments.push(format!("# only a comment {k}"));
             }
+            return s;
+        }
+        if shape == 3 && self.opts.invalid {
+            // an exit code without a command (it must not end up at the next test)
+            s.body.push(Body::Exit(*self.rng.pick(&[1, 3])));
             return s;
         }
         if shape == 2 && self.opts.invalid {
@@ -2026,7 +2038,9 @@ pub fn gen_cram(rng: &mut Rng) -> CramDoc {
                 for _ in 0..nb {
                     comment(rng, &mut ls);
                     k += 1;
-                    let (text, class): (String, &str) = match rng.below(29) {
+                    let (text, class): (String, &str) = match rng.below(31) {
+                        29 => (format!("[{}] ", k % 3), "bracket-ws"),
+                        30 => ("[7]\t".into(), "bracket-ws"),
                         26 => (format!("loading 10%\rloading 100% {k}"), "cr-inside"),
                         27 if crlf == u64::MAX => (format!("done {k}\r"), "cr-end"),
                         27 => (format!("\rstart {k}"), "cr-inside"),
@@ -2094,8 +2108,12 @@ pub fn gen_cram(rng: &mut Rng) -> CramDoc {
             }
             _ => {
                 if !open_test {
-                    items.push(CItem::Orphan(vec![format!("orphan {k}")]));
-                    items.push(CItem::Blank);
+                    // an expectation or an exit code without a command; now and then directly in
+                    // front of whatever comes next (it must not become part of the next test)
+                    items.push(CItem::Orphan(vec![if rng.chance(1, 3) { "[3]".to_string() } else { format!("orphan {k}") }]));
+                    if !rng.chance(1, 3) {
+                        items.push(CItem::Blank);
+                    }
                 } else {
                     items.push(CItem::Blank);
                     open_test = false;
@@ -2217,7 +2235,7 @@ pub fn md_wellformed(doc: &MdDoc) -> Result<(), String> {
                         }
                     }
                     Role::NonPara { .. } | Role::ParaLike { .. } => {
-                        if starts_letter || t.is_empty() || t.starts_with("```") || t == "---" || (t.starts_with('#') && t.trim_start_matches('#').starts_with(' ')) {
+                        if starts_letter || t.is_empty() || (t.starts_with("```") && !t.trim_start_matches('`').contains('`')) || t == "---" || (t.starts_with('#') && t.trim_start_matches('#').starts_with(' ')) {
                             return Err(format!("line would be read as something else: {text:?}"));
                         }
                     }
